@@ -52,11 +52,13 @@ def rand_solimp(rng):
 
 
 def joint(jtype, axis=(0, 0, 1), pos=(0, 0, 0), damping=0.0, stiffness=0.0, armature=0.0, limited=False, rng_=(0.0, 0.0), springref=0.0,
-          frictionloss=0.0, solref_limit=DEF_SOLREF, solimp_limit=DEF_SOLIMP, solref_friction=DEF_SOLREF, solimp_friction=DEF_SOLIMP):
+          frictionloss=0.0, solref_limit=DEF_SOLREF, solimp_limit=DEF_SOLIMP, solref_friction=DEF_SOLREF, solimp_friction=DEF_SOLIMP,
+          actgravcomp=False, actfrclimited=False, actfrcrange=(0.0, 0.0)):
     return {"type": jtype, "axis": list(axis), "pos": list(pos), "damping": damping, "stiffness": stiffness, "armature": armature,
             "limited": bool(limited), "range": list(rng_), "springref": springref, "frictionloss": frictionloss,
             "solref_limit": list(solref_limit), "solimp_limit": list(solimp_limit), "solref_friction": list(solref_friction),
-            "solimp_friction": list(solimp_friction)}
+            "solimp_friction": list(solimp_friction), "actgravcomp": bool(actgravcomp), "actfrclimited": bool(actfrclimited),
+            "actfrcrange": list(actfrcrange)}
 
 
 def make_model(rng, family):
@@ -167,6 +169,42 @@ def make_model(rng, family):
         M["always_moving"] = True
         return M
 
+    if family == "actuation":
+        # the actuation stage: motors / position / velocity servos with gear, ctrlrange (ctrl beyond it), forcerange (tight, so that the clamp acts),
+        # several actuators on one joint; joint-level actuatorfrcrange (tight) and actuatorgravcomp with body gravcomp, combined and separately
+        opt["integrator"] = rng.choice([0, 0, 1])       # implicitfast with saturated servos: fixed replay `implicit_clamped_servo` (candidate finding)
+        presets = {}
+        nj = 0
+
+        def act(jn, kind, **kw):
+            a = {"joint": jn, "kind": kind, "gear": rng.choice([1.0, rng.uniform(0.5, 3.0), -rng.uniform(0.5, 2.0)]), "kp": rng.uniform(2, 30), "kv": rng.uniform(0.1, 2.0) if kind == 2 else 0.0,
+                 "ctrllimited": rng.random() < 0.5, "ctrlrange": [-rng.uniform(0.2, 1.0), rng.uniform(0.2, 1.0)],
+                 "forcelimited": rng.random() < 0.5, "forcerange": [-rng.uniform(0.1, 2.0), rng.uniform(0.1, 2.0)]}
+            a.update(kw)
+            M["acts"].append(a)
+        combos = [(True, True), (True, False), (False, True), (False, False), (True, True)]
+        rng.shuffle(combos)
+        for k, (gc, lim) in enumerate(combos):
+            root = k == 0 or rng.random() < 0.4
+            parent = -1 if root else rng.randrange(k)
+            pos = [2.5 * k, rng.uniform(-0.2, 0.2), 1.0] if root else [rng.uniform(0.15, 0.3), rng.uniform(-0.1, 0.1), rng.uniform(-0.2, 0.2)]
+            b = add_body(parent, pos, rquat(rng) if rng.random() < 0.5 else (1, 0, 0, 0))
+            M["bodies"][b]["gravcomp"] = rng.choice([0.0, 1.0, rng.uniform(0.2, 1.5)]) if not gc else rng.choice([1.0, rng.uniform(0.3, 1.5)])
+            t = rng.choice([2, 3, 3])
+            # the range is tight relative to the gravity-compensation force (m g ~ a few N / Nm) and to the actuator forces
+            hi = rng.uniform(0.05, 1.5)
+            lo = -rng.uniform(0.05, 1.5) if rng.random() < 0.7 else hi * rng.uniform(0.1, 0.9)       # asymmetric, sometimes entirely positive
+            add_joint(b, joint(t, axis=unit([rng.uniform(-1, 1), rng.uniform(-1, 1), rng.uniform(-0.3, 0.3)]), damping=rng.uniform(0, 0.2),
+                               actgravcomp=gc, actfrclimited=lim, actfrcrange=(min(lo, hi), max(lo, hi))))
+            M["bodies"][b]["geoms"].append(geom(2, [rng.uniform(0.04, 0.08)], pos=[rng.uniform(0.05, 0.2), 0, 0], density=rng.uniform(800, 4000)))
+            for _ in range(rng.choice([1, 1, 2])):
+                act(nj, rng.choice([0, 0, 1, 2]))
+            nj += 1
+        M["ctrl_extreme"] = True
+        M["collide"] = False
+        M["always_moving"] = True
+        return M
+
     if family == "sensors":
         # (sphere geoms only: accidental contacts between links then go through exact kernels, not the regularised capsule ones)
         # frame sensors with and without a reference frame, object and reference on DIFFERENT moving bodies (both directions), on the same body,
@@ -273,6 +311,21 @@ def make_model(rng, family):
         M["bodies"][S]["geoms"].append(geom(2, [0.05], condim=cd, friction=fr))                      # sibling of A overlapping A: collides
         M["collide"] = True
         M["always_moving"] = rng.random() < 0.5
+        return M
+
+    if family == "implicit_clamped_servo":
+        # fixed replay of the candidate finding "MJX deriv_smooth_vel keeps the velocity derivative of an actuator whose force is clamped by forcerange"
+        # (C mjd_actuator_vel skips it): implicitfast, one hinge, a velocity servo with kv saturated by a tight forcerange
+        opt["integrator"] = 3
+        opt["timestep"] = 0.004
+        b = add_body(-1, [0, 0, 1])
+        add_joint(b, joint(3, axis=[0, 1, 0]))
+        M["bodies"][b]["geoms"].append(geom(2, [0.06], pos=[0.15, 0, 0]))
+        M["acts"].append({"joint": 0, "kind": 2, "gear": 1.0, "kp": 0.0, "kv": 2.0, "ctrllimited": False, "ctrlrange": [0.0, 0.0], "forcelimited": True, "forcerange": [-0.2, 0.2]})
+        M["ctrl_fixed"] = [3.0]
+        M["collide"] = False
+        M["always_moving"] = True
+        M["known"] = "implicit_clamp"
         return M
 
     if family == "connect_moving":
@@ -448,6 +501,10 @@ def random_state(M, rng, k):
         vs = 0.3
     v = [rng.uniform(-vs, vs) for _ in range(nv)]
     u = [rng.uniform(-1, 1) for _ in range(nu)]
+    if M.get("ctrl_fixed"):
+        u = list(M["ctrl_fixed"])
+    if M.get("ctrl_extreme"):
+        u = [rng.choice([-3.0, 3.0, -1.0, 1.0, 0.0, rng.uniform(-2, 2)]) for _ in range(nu)]
     return {"qpos": q, "qvel": v, "ctrl": u}
 
 
@@ -485,14 +542,16 @@ def to_xml(M):
 
     def emit(i):
         b = M["bodies"][i]
-        out.append('<body name="b%d" pos="%s" quat="%s">' % (i, vec(b["pos"]), vec(b["quat"])))
+        out.append('<body name="b%d" pos="%s" quat="%s" gravcomp="%s">' % (i, vec(b["pos"]), vec(b["quat"]), r(b.get("gravcomp", 0.0))))
         for j in b["joints"]:
             out.append('<joint name="j%d" type="%s" axis="%s" pos="%s" damping="%s" stiffness="%s" armature="%s" limited="%s" range="%s" springref="%s" '
-                       'frictionloss="%s" solreflimit="%s" solimplimit="%s" solreffriction="%s" solimpfriction="%s"/>' %
+                       'frictionloss="%s" solreflimit="%s" solimplimit="%s" solreffriction="%s" solimpfriction="%s" %s/>' %
                        (jn[0], JNT_NAME[j["type"]], vec(j["axis"]), vec(j["pos"]), r(j["damping"]), r(j["stiffness"]), r(j["armature"]),
                         "true" if j["limited"] else "false", vec(j["range"]), r(j["springref"]), r(j.get("frictionloss", 0.0)),
                         vec(j.get("solref_limit", DEF_SOLREF)), vec(j.get("solimp_limit", DEF_SOLIMP)), vec(j.get("solref_friction", DEF_SOLREF)),
-                        vec(j.get("solimp_friction", DEF_SOLIMP))))
+                        vec(j.get("solimp_friction", DEF_SOLIMP)),
+                        ('actuatorgravcomp="%s" actuatorfrclimited="%s" actuatorfrcrange="%s"' % ("true" if j.get("actgravcomp") else "false",
+                         "true" if j.get("actfrclimited") else "false", vec(j.get("actfrcrange", (0.0, 0.0))))) if j["type"] >= 2 else ""))
             jn[0] += 1
         for g in b["geoms"]:
             out.append(geom_xml(g))
@@ -528,10 +587,16 @@ def to_xml(M):
     if M["acts"]:
         out.append('<actuator>')
         for a in M["acts"]:
+            lim = 'ctrllimited="%s" ctrlrange="%s" forcelimited="%s" forcerange="%s"' % (
+                "true" if a.get("ctrllimited") else "false", vec(a.get("ctrlrange", (0.0, 0.0))), "true" if a.get("forcelimited") else "false",
+                vec(a.get("forcerange", (0.0, 0.0))))
+            ai = [id(x) for x in M["acts"]].index(id(a))
             if a["kind"] == 0:
-                out.append('<motor name="a%d" joint="j%d" gear="%s"/>' % (M["acts"].index(a), a["joint"], r(a["gear"])))
+                out.append('<motor name="a%d" joint="j%d" gear="%s" %s/>' % (ai, a["joint"], r(a["gear"]), lim))
+            elif a["kind"] == 1:
+                out.append('<position name="a%d" joint="j%d" gear="%s" kp="%s" kv="%s" %s/>' % (ai, a["joint"], r(a["gear"]), r(a["kp"]), r(a.get("kv", 0.0)), lim))
             else:
-                out.append('<position name="a%d" joint="j%d" gear="%s" kp="%s" kv="0"/>' % (M["acts"].index(a), a["joint"], r(a["gear"]), r(a["kp"])))
+                out.append('<velocity name="a%d" joint="j%d" gear="%s" kv="%s" %s/>' % (ai, a["joint"], r(a["gear"]), r(a.get("kv", 0.0)), lim))
         out.append('</actuator>')
     if M.get("sensors"):
         out.append('<sensor>')
@@ -576,13 +641,14 @@ def to_lines(M, states):
     for st in M.get("wsites", []):
         L.append("wsite %s %s" % (st["name"], vec(st["pos"])))
     for b in M["bodies"]:
-        L.append("body %d %s %s" % (b["parent"], vec(b["pos"]), vec(b["quat"])))
+        L.append("body %d %s %s %s" % (b["parent"], vec(b["pos"]), vec(b["quat"]), r(b.get("gravcomp", 0.0))))
         for j in b["joints"]:
-            L.append("joint %d %s %s %s %s %s %d %s %s %s %s %s %s %s" % (j["type"], vec(j["axis"]), vec(j["pos"]), r(j["damping"]), r(j["stiffness"]),
+            L.append("joint %d %s %s %s %s %s %d %s %s %s %s %s %s %s %d %d %s" % (j["type"], vec(j["axis"]), vec(j["pos"]), r(j["damping"]), r(j["stiffness"]),
                                                                          r(j["armature"]), int(j["limited"]), vec(j["range"]), r(j["springref"]),
                                                                          r(j.get("frictionloss", 0.0)), vec(j.get("solref_limit", DEF_SOLREF)),
                                                                          vec(j.get("solimp_limit", DEF_SOLIMP)), vec(j.get("solref_friction", DEF_SOLREF)),
-                                                                         vec(j.get("solimp_friction", DEF_SOLIMP))))
+                                                                         vec(j.get("solimp_friction", DEF_SOLIMP)), int(bool(j.get("actgravcomp"))),
+                                                                         int(bool(j.get("actfrclimited"))), vec(j.get("actfrcrange", (0.0, 0.0)))))
         for g in b["geoms"]:
             L.append(geom_line("geom", g))
         for st in b.get("sites", []):
@@ -596,7 +662,8 @@ def to_lines(M, states):
         L.append("tendon %s %s %s %d %s" % (r(t["stiffness"]), r(t["damping"]), vec(t["springlength"]), len(t["wraps"]),
                                           " ".join("%d %d %s" % (kind, ref, r(coef)) for kind, ref, coef in t["wraps"])))
     for a in M["acts"]:
-        L.append("act %d %d %s %s" % (a["joint"], a["kind"], r(a["gear"]), r(a["kp"])))
+        L.append("act %d %d %s %s %s %d %s %d %s" % (a["joint"], a["kind"], r(a["gear"]), r(a["kp"]), r(a.get("kv", 0.0)), int(bool(a.get("ctrllimited"))),
+                                                     vec(a.get("ctrlrange", (0.0, 0.0))), int(bool(a.get("forcelimited"))), vec(a.get("forcerange", (0.0, 0.0)))))
     for tname, ot, on, rt, rn in M.get("sensors", []):
         L.append("sensor %s %s %s %s %s" % (tname, ot, sname(on), rt, sname(rn)))
     L.append("END")
